@@ -10,6 +10,7 @@ def run(ctx):
     if not q:
         prm["upto"] = 200000
         prm["randn"] = 200000
+    spell.apply_conformance(ctx)
     spell.run_kind(ctx, "C04", "Gen_Spell", prm,
                    "ranks: every rank below %d, the last rank of the range (10^6; es/pt 1999), %d seeded ranks; x orthographic variants "
                    "(en 3, fr 3, es 3 teen styles) x inflections (fr m/f/mp/fp, de -e/-er/-en/-es/-em, it o/a/i/e, es/pt o/a/os/as), alone and "
